@@ -134,13 +134,19 @@ def run(tier, seed):
         ck.leanchecker("ScrapliProps.C02")
     # known findings: replay stored witnesses
     for f in ck.findings:
-        if f.get("status") != "open":
+        w = f.get("witness")
+        if not w:
             continue
-        w = f["witness"]
         b, v = Scenario.from_dict(w["base"]), Scenario.from_dict(w["variant"])
         br, vr = run_real(b), run_real(v)
+        ck.case(("witness", f["id"]), nontrivial=True, tags=("finding-witness",))
         if observables(b, br) != observables(v, vr):
-            ck.known_finding(f["id"], f["what"])
+            if f.get("status") == "open":
+                ck.known_finding(f["id"], f["what"])
+            else:
+                # a repaired finding is a regression case: it suppresses nothing
+                ck.violation({"base": b.describe(), "variant": v.describe(), "tag": "witness-" + f["id"]},
+                             f"the stored witness of the repaired finding {f['id']} differs between segmentations again")
     modelq = []
     nbase = 42 if tier == "quick" else 110
     for bi in range(nbase):
